@@ -166,6 +166,7 @@ def call_builtin(I, st, name, args, kwargs, node):
     raise Unsupported("builtin %s (line %s)" % (name, getattr(node, "lineno", "?")))
 
 
+dt_of_str = z3.Function("dt_of_str", StrS, z3.IntSort())
 int_of_str = z3.Function("int_of_str", StrS, z3.IntSort())
 real_of_str = z3.Function("real_of_str", StrS, z3.RealSort())
 
@@ -508,6 +509,10 @@ def call_external(I, st, dotted, args, kwargs, node):
                 return mkreal(v.extra[1])
             return mkreal(real_of_str(v.term))
         raise Unsupported("Decimal(%s)" % ty_str(v.ty))
+    if dotted == "datetime.datetime.strptime":
+        # assumed: the text parses (ValueError not modelled); the value is an uninterpreted function of the text
+        I.drops.add("datetime.strptime(text, fmt): uninterpreted dt_of_str(text); ValueError on malformed text not modelled")
+        return Val("DT", dt_of_str(args[0].term))
     if dotted == "itertools.chain":
         return Val("View", ("chain", list(args)))
     if dotted in ("copy.copy", "copy.deepcopy"):
